@@ -209,6 +209,8 @@ pub fn c13(h: &mut H) {
                 }
             }
             reject(h, "neg_e", &k.pk, &bases, &sig_with(&sig, "e", &Integer::from(-e.clone())), &msgs);
+            reject(h, "v_plus_N", &k.pk, &bases, &sig_with(&sig, "v", &Integer::from(&vv + &k.n_mod)), &msgs);
+            reject(h, "v_minus_N", &k.pk, &bases, &sig_with(&sig, "v", &Integer::from(&vv - &k.n_mod)), &msgs);
             reject(h, "v_negated", &k.pk, &bases, &sig_with(&sig, "v", &Integer::from(&k.n_mod - &vv)), &msgs);
             // e and s swapped, other bases, other key
             let mut sw = sig.clone();
